@@ -46,20 +46,20 @@ def main():
     r = runner.explore("harness.fam_diff", fam_diff.shards(t, (PROP,), kn), nproc=common.nproc(),
                        budget_s=400 if t == "quick" else 3000)
     chk.add("generic-diff-patch", r)
-    r = runner.explore("harness.fam_nbdiff", fam_nbdiff.shards(t, (PROP,), kn, files=0, lite=True),
+    r = runner.explore("harness.fam_nbdiff", fam_nbdiff.shards("quick", (PROP,), kn, files=0, lite=(t == "quick")),
                        nproc=common.nproc(), budget_s=400 if t == "quick" else 3000)
     chk.add("notebook-diff-patch", r)
     r = runner.explore("harness.fam_merge", fam_merge.triple_shards(t, (PROP,), kn),
                        nproc=common.nproc(), budget_s=300 if t == "quick" else 2400)
     chk.add("generic-merge", r)
-    sh = F.default_shards(t, (PROP,), kn, tools=("git",))
-    st = F.strategy_shards(t, (PROP,), kn, tools=("git",))
+    sh = F.default_shards("quick", (PROP,), kn, tools=("git",))
+    st = F.strategy_shards("quick", (PROP,), kn, tools=("git",))
     sh += st if t == "thorough" else st[::2]
     r = runner.explore("harness.fam_nbmerge", sh, nproc=common.nproc(), budget_s=400 if t == "quick" else 3000)
     chk.add("notebook-merge", r)
     try:
         from . import fam_render
-        r = runner.explore("harness.fam_render", fam_render.shards(t, (PROP,), kn, lite=True), nproc=common.nproc(),
+        r = runner.explore("harness.fam_render", fam_render.shards("quick", (PROP,), kn, lite=(t == "quick")), nproc=common.nproc(),
                            budget_s=300 if t == "quick" else 2400)
         chk.add("rendering", r)
     except ImportError:
